@@ -9,37 +9,37 @@ TRUST = ("Trusted: the overlay rewriting (os.Exit/watchdog/state reset by re-ini
 checks = [
  # id, technique, level text, note
  ("C01", "bounded-exhaustive input enumeration on the real analysis code (in-process engine); candidates confirmed on the unmodified binary",
-  "All token strings up to the stated length over the token alphabets (with/without final newline), every corpus program, its prefixes and single-token deviations are executed on the real evaluator; exit status, Go panics, worker death and the output line grammar are checked on every execution. Exhaustive within the stated bounds.",
+  "All token strings up to the stated length over the token alphabets (with/without final newline), every corpus and generated program, their prefixes and single-token deviations, sources that are not valid UTF-8 (every mid-character byte prefix of the corpus, ill-formed sequences around small hosts) and programs with two-line string literals in quoted positions are executed on the real evaluator; exit status, Go panics, worker death and the output line grammar are checked on every execution. Exhaustive within the stated bounds.",
   TRUST),
  ("C02", "bounded-exhaustive input enumeration with a tick-budget hang detector on the real code; hangs confirmed by `timeout` 3/3 on the unmodified binary",
   "Same input space as C01 plus all inheritance graphs with <=3 edges over 3 classes; a run is hung when it exhausts a 2M rune/token fetch budget (largest legitimate corpus run: 38k), recurses until the stack limit, or misses the driver deadline; each candidate is confirmed on the real binary.",
   TRUST + " A spin that neither fetches a rune nor a token nor recurses is only caught by the 30 s driver deadline."),
  ("C03", "exhaustive enumeration of all rune strings up to a length bound through the real lexer.Advance and parser.Read loops (explicit-state explorer linked against the real packages)",
-  "Every string over a 50-rune alphabet (one representative per lexer branch, NUL, U+FFFD, non-ASCII blanks) up to length 4 (quick) / 5, and 6 over a 30-rune sub-alphabet (thorough), each with and without final newline, plus every rune prefix of every corpus file: token count bounded by length, reader cursor at end with nothing pending, no `read error`, no spin (tick budget).",
+  "Every string over a 50-rune alphabet (one representative per lexer branch, NUL, U+FFFD, non-ASCII blanks) up to length 4 (quick) / 5, over a 65-atom wide alphabet (adds non-ASCII digits, upper case, symbol, astral rune, separators, BOM, DEL, VT/FF, combining mark and three ill-formed byte sequences) up to length 3 / 4, and 6 over a 30-rune sub-alphabet (thorough), each with and without final newline, plus every rune prefix of every corpus file: token count bounded by length, reader cursor at end with nothing pending, no `read error`, no spin (tick budget).",
   "The explorer is built from /repo's lexer, reader and parser packages with accessor hooks for the reader cursor (overlay, tag verif). Findings are confirmed on the unmodified binary."),
  ("C06", "metamorphic bounded-exhaustive exploration: every statement boundary x layout edit on every corpus/generated program, executed on the real code and compared with the row-shifted original",
-  "For each of the corpus and generated programs every statement boundary (harness line scanner) receives a blank line and a comment line (thorough: also an indented comment, plain mode as well as -i), every safe single-line string literal is widened by 1 and 2 newlines, the final newline is stripped/doubled; the edited output must equal the original output with rows after the edit shifted.",
+  "For each of the corpus and generated programs every statement boundary (harness line scanner) receives a blank line, a comment line and a comment line with an empty body (thorough: also indented and tight comments, a whitespace-only line, plain mode as well as -i), every safe single-line string literal is widened by 1 and 2 newlines, the final newline is stripped/doubled; the edited output must equal the original output with rows after the edit shifted.",
   TRUST + " The harness's line scanner (trusted) decides where a statement boundary is; it refuses files it does not understand."),
  ("C13", "metamorphic bounded-exhaustive exploration: every provably renameable identifier x fresh names, renamed program analysed by the real code and compared after inverting the substitution",
   "Every local, user method and user class of the corpus and generated programs that the harness's conservative token-role analysis proves renameable is renamed to fresh names of several lengths (quick: 2 per category; thorough: 4/3 incl. one-letter); the output with the fresh name substituted back must equal the original output.",
   TRUST + " The token-role analysis (trusted) refuses names with mixed roles, names occurring in strings/comments/symbols and files with heredocs."),
  ("C14", "exhaustive permutation exploration: every order of the keyword arguments of every generated call, analysed by the real code and compared with the first order",
-  "User-defined and configured methods with 2-3 (quick) / 2-5 (thorough) keyword parameters (required, defaulted), calls supplying every subset of keys with Integer/String values, an optional unknown key and 0-1 positional, with and without parentheses: all permutations must print identical output.",
+  "User-defined and configured methods with 2-3 (quick) / 2-5 (thorough) keyword parameters (required, defaulted), calls supplying every subset of keys with Integer/String values, an optional unknown key and 0-1 positional, with and without parentheses, and user-defined callees collecting keywords in a double-splat parameter (alone, after a positional, after a keyword) with values of three types: all permutations must print identical output.",
   TRUST),
  ("C05", "schedule exploration over owned map-iteration order: every range-over-map execution is a scheduling point; SORTED/REVERSED/ROT policies plus all single-site deviations (deviation bound 1), outputs compared; dependences confirmed by repeated fresh runs of the unmodified binary",
-  "Programs (generated + corpus) x 11 output modes are executed under the reference order, the global reversal and two rotations, and under every policy that reverses exactly one executed range statement (bound 1; capped per case, cap reported); every reference run is executed twice with other cases in between and scanned for heap addresses. Output must be byte-identical (multiset of lines for --define).",
+  "Programs (generated, incl. programs built so that every sort key ties, + corpus) x 13 output modes are executed under the reference order, the global reversal and two rotations, and under every policy that reverses exactly one executed range statement (bound 1; capped per case, cap reported); every reference run is executed twice with other cases in between and scanned for heap addresses. Output must be byte-identical (multiset of lines for --define).",
   TRUST + " Map iteration order is owned at the granularity of range statements (sites found mechanically by the overlay generator); goroutine/GC schedules are assumed not to reach the output (no finalisers, pointer-keyed maps, time or randomness in non-test sources)."),
  ("C12", "explicit-state search over statement sequences with an in-package state dump (invariant on every state) plus a black-box probe oracle",
-  "After a fixed prelude every sequence of statements from a 42-statement alphabet up to depth 2 (quick) / 3 (thorough), and every corpus program that does not reopen a configured class, is analysed; the canonical dump of every configured TFrame entry must be identical before and after analysis (distinct table states are counted), and a probe block generated from the configuration must print the same types after the program as alone.",
+  "After a fixed prelude every sequence of statements from a 42-statement alphabet up to depth 2 (quick) / 3 (thorough), every corpus program that does not reopen a configured class, and for String/Array/Hash a subclass whose method writes through the bare name of every inherited zero-argument method, is analysed; the canonical dump of every configured TFrame entry must be identical before and after analysis (distinct table states are counted), and a probe block generated from the configuration must print the same types after the program as alone.",
   TRUST + " The table is observed through a dump hook added by the overlay (tag verif); scratch fields that lookups legitimately rewrite are excluded from the dump."),
  ("C18", "metamorphic bounded-exhaustive exploration: every top-level split of every program into preload file(s) + target, analysed by the real code and compared with the whole program",
-  "Every corpus and generated program is split at every top-level statement boundary (thorough: every pair of boundaries, two preload files) with a generated .ti-loader.json; the target's output must equal the whole program's output restricted to the target's rows and rebased, and must not name a preload file.",
+  "Every corpus and generated program is split at every top-level statement boundary (small generated programs and the thorough tier: also pairs and triples of boundaries, two or three preload files listed in non-lexical name order) with a generated .ti-loader.json; the target's output must equal the whole program's output restricted to the target's rows and rebased, and must not name a preload file.",
   TRUST + " Top-level boundaries are recognised by the harness (keyword depth and column-0 indentation)."),
  ("C19", "bounded-exhaustive exploration of configuration layouts: load-order permutations and class-file splits of the shipped configuration, every program analysed under each and compared with the shipped layout",
   "The shipped configuration is loaded reversed, under cyclic rotations (quick: 5; thorough: all) and all adjacent transpositions (thorough), and with class files split in two in several load orders (quick: every third class); every corpus and generated program must print the same output as under the shipped file names.",
   TRUST),
  ("C20", "bounded-exhaustive exploration of configuration extensions: extra class files (fresh names in several frames, namespaced, with extends, and per-program short-name collisions with user classes), every program analysed with and without",
-  "Each corpus and generated program is analysed with the shipped configuration and with one extra class file added (loaded first or last) that the program never mentions, including for every user-defined class of the program a configured class of the same short name in a foreign frame; output must be identical.",
+  "Each corpus and generated program is analysed with the shipped configuration and with one extra class file added (loaded first or last) that the program never mentions, including extras with instance properties / variables, foreign-frame classes shadowing configured classes, and for every user-defined class of the program a configured class of the same short name in a foreign frame (frame Builtin for classes that exist only inside a module); output must be identical.",
   TRUST),
  ("C21", "exhaustive exploration of notation pairs x method shapes x argument tuples: the same declaration written in both notations, every call analysed under both configurations",
   "For every notation pair of the property a generated class declares the method in notation A and in notation B (class and instance method; alone / after a required Int / before a trailing String); every argument tuple up to length 2 (quick) / 3 (thorough) over seven literal kinds and the --suggest rendering must give identical output under both configurations.",
@@ -48,46 +48,46 @@ checks = [
   "Every corpus and generated program x every row 0..lines+2 x {--suggest, --hover, --define}, plus line-boundary prefixes and cursor-after-dot variants (file cut after an identifier/)/] with `.` appended, with/without the remainder) at rows cursor-1..cursor+1: exit status 0, no panic, no hang, every line a %/@/$ record or a diagnostic of the target file.",
   TRUST),
  ("C11", "metamorphic bounded-exhaustive exploration: every admissible statement boundary of every host x every fragment, and ordered pairs of independent programs; real code, records outside the fragment compared after the row shift",
-  "11 self-contained fragments over fresh names (conditionals, nested conditionals, case/in, blocks, array-literal statement, builtin calls on unions, hash merge, push, loop) are inserted at every statement boundary that is not directly before a block closer / branch keyword / end of file (quick: 4 fragments everywhere, all fragments on the 150 smallest hosts and on generated hosts); whole independent programs are appended pairwise.",
+  "18 self-contained fragments over fresh names (conditionals, nested conditionals, case/in, case/when, blocks, array-literal statement, builtin calls on unions, hash merge, push, loop, modifier while/until/if/unless, ternary, begin/rescue) are inserted at every statement boundary that is not directly before a block closer / branch keyword / end of file (quick: 4 fragments everywhere, all fragments on the 150 smallest hosts and on generated hosts); whole independent programs are appended pairwise.",
   TRUST + " Boundaries come from the harness's line scanner. An erroneous fragment is not used: ti stops checking a body after its first error, which the statement does not rule out (DESIGN.md section 11)."),
  ("C27", "exhaustive exploration of class-group x wrapper x decoy placements, real code, records compared after removing the qualification prefix and mapping rows",
-  "Six class groups (single class, inheritance, mixin, private section, initialize arity, class-method chain) are analysed at top level and wrapped in one / two nested modules with outside references qualified, each alone and next to a same-named decoy class (top level before/after the wrapped group, or inside another module); the group's and its uses' records must be those of the top-level reference.",
+  "Eight class groups (single class, inheritance, mixin, private section, initialize arity, nested class with outside parent, Object-inherited methods, class-method chain) are analysed at top level and wrapped in one / two nested modules with outside references qualified, each alone and next to a same-named decoy class (top level before/after the wrapped group, or inside another module); the group's and its uses' records must be those of the top-level reference.",
   TRUST),
  ("C07", "exhaustive enumeration of (receiver class x configured method x argument tuple) calls, each analysed by the real code and judged by a three-valued reference acceptance model read from the same JSON",
   "Every configured instance method name (plus undeclared names) on 9 literal receivers x every argument tuple of length 0..2 (quick) / 0..3 (thorough) over 7 literal kinds and 3 union-typed variables, one call per program: whenever the reference model says 'certainly fails' (undeclared for the class and its ancestors, count outside every overload, an argument whose every class is rejected by every overload) a diagnostic must be on the call's row.",
-  TRUST + " The reference model answers only on its certain domain (keyword parameters, block methods, mixed default unions, typed-array elements, Integer-for-Float, Unify-style parameters are 'unknown'). Configurations: the shipped core files, a generated base/subclass pair with an override in both file orders, and a generated class covering every parameter-spec tuple over 11 parameter notations up to length 2 (thorough 3)."),
+  TRUST + " The reference model answers only on its certain domain (keyword parameters, block methods, mixed default unions, typed-array elements, Integer-for-Float, Unify-style parameters are 'unknown'). Configurations: the shipped core files, a generated base/subclass pair with an override in both file orders, a generated class covering every parameter-spec tuple over 11 parameter notations up to length 2 (thorough 3), and a generated class with 0-1 positional and 2-3 keyword parameters in every declaration order x call order x value types (direct verdict rule)."),
  ("C08", "same enumeration as C07, restricted to calls the reference acceptance model certainly accepts",
   "For every call of the C07 space that certainly fits a declaration (declared or inherited, count accepted, every class of every argument - including union-typed arguments - accepted) there must be no diagnostic on the call's row.",
   TRUST + " Same reference-model domain as C07."),
  ("C09", "exhaustive enumeration against a reference interpreter: (a) certainly-fitting configured calls with resolvable declared return types, (b) all straight-line programs up to a statement bound",
-  "(a) `dbtp recv.m(args)` must print the declared return type with Self, Unify, OptionalUnify, typed arrays, unions and ?T resolved against the receiver; (b) every sequence of <=3 (quick) / <=4 (thorough) statements over literals, array/hash literals (incl. a repeated key), reassignment, copy, indexing, hash lookup, push, <<, OptionalUnify calls and call chains is probed after every statement against the reference interpreter (set equality of types).",
+  "(a) `dbtp recv.m(args)` must print the declared return type with Self, Unify, OptionalUnify, typed arrays, unions and ?T resolved against the receiver; (b) every sequence of <=3 (quick) / <=4 (thorough) statements over literals, array/hash literals (incl. a repeated key), reassignment, copy, indexing, hash lookup, push, <<, OptionalUnify calls, nested array literals, push/<< of arrays and call chains is probed after every statement against the reference interpreter (set equality of types).",
   TRUST + " Conditional returns, Argument/SelfArgument/BlockResultArray style returns and whether an index expression may be nil are outside the reference's domain."),
  ("C10", "exhaustive enumeration of conditional skeletons against a reference variant-filter model",
   "Variable types {Integer|NilClass, Integer|String, Integer|String|NilClass, String|Array} x conditions (atoms and && pairs over nil?/!nil?/is_a?/!is_a? on one or two variables) x if/unless x none/else/elsif-else x filler statements (incl. an unrelated inner if and a block) x optional nested conditional, with dbtp probes in every branch and after the conditional; every probe must print the reference set (class level).",
   TRUST + " Probes whose reference set is empty (unreachable branch) are skipped."),
  ("C17", "exhaustive enumeration of block calls against a reference parameter-resolution model",
-  "Receivers {Array<Integer>, Array<Integer String>, two Hashes, Range, String, Integer} x every configured block method visible on them x 0..declared+1 block variables x do/end and braces x shadowing of an outer variable x a nested inner block (reading / shadowing the outer parameter) with a block-local assignment; probes on every parameter inside, and on the outer variable and the block-local after the block.",
+  "Receivers {Array<Integer>, Array<Integer String>, two Hashes, Range, String, Integer} x every configured block method visible on them x 0..declared+1 block variables x do/end and braces x shadowing of an outer variable x a nested inner block (reading / shadowing the outer parameter) with a block-local assignment, plus overloaded block methods of a generated class (only the overload declares block parameters) called with and without parenthesised arguments; probes on every parameter inside, and on the outer variable and the block-local after the block.",
   TRUST + " Declared block parameter kinds outside {Int,String,Symbol,NilClass,Float,Untyped,Unify,Flatten,Item} are not probed."),
  ("C15", "exhaustive enumeration of (parameter list x body x call-site argument-type tuple x arrangement) programs against a reference union/return-type model",
-  "One user method with 5 parameter-list shapes and 5 body kinds, 1-3 (thorough 4) call sites over {Integer,String,NilClass,Float}, definition before/after the calls, calls inside another method or through a second method: the parameter's type in the body and in the -i signature must be the union of the call-site argument types (plus defaults), the call's type the body's result incl. explicit return, and a body operation failing for every / defined for every argument class must (not) be reported.",
+  "One user method with 5 parameter-list shapes and 5 body kinds, 1-3 (thorough 4) call sites over {Integer,String,NilClass,Float}, definition before/after the calls, calls inside another method or through a second method, and call chains of depth 1-3 with a direct site placed before/after the definitions or in a helper: the parameter's type in the body and in the -i signature must be the union of the call-site argument types (plus defaults), the call's type the body's result incl. explicit return, and a body operation failing for every / defined for every argument class must (not) be reported.",
   TRUST),
  ("C16", "exhaustive enumeration of generated hierarchies x call forms against a Ruby method-resolution/visibility reference",
-  "Superclass chains of depth 1-3 (thorough 4), a method at each level under each visibility, include/extend (and both) of a module at each level, class methods via def self./class << self, initialize arities 0-2 x 0-3 arguments, 14 call forms, class names plain and colliding with configured short names; one call per program; undefined/invisible must be reported on the call row, defined and visible must not and must have the body's type.",
+  "Superclass chains of depth 1-3 (thorough 4), a method at each level under each visibility, include/extend (and both) of a module at each level, class methods via def self./class << self, initialize arities 0-2 x 0-3 arguments, 14 call forms, class names plain and colliding with configured short names, and classes inside 1-3 nested modules whose unqualified superclass / included module is defined at each enclosing level (with a top-level decoy); one call per program; undefined/invisible must be reported on the call row, defined and visible must not and must have the body's type.",
   TRUST),
  ("C22", "exhaustive enumeration of class bodies (sequences of definition kinds) x editor queries against generator-known def rows",
-  "Every sequence of <=3 (thorough 4) items from 8 definition kinds (plain, after private/protected/public, def self., class << self, endless, multi-line signature), optionally nested in a module, plus a top-level method: -i must give exactly one hint per method at its def row with the right c/ or i/ tag and visibility; --define --row=<call row> must contain the method's def row; --hover --row=<call row> must name the method.",
+  "Every sequence of <=3 (thorough 4) items from 13 definition kinds (plain, after private/protected/public, def self., class << self, endless, multi-line signature, endless multi-line, methods returning an instance of the own class / a peer class / a top-level class), optionally nested in a module, plus a top-level method: -i must give exactly one hint per method at its def row with the right c/ or i/ tag and visibility; --define --row=<call row> must contain the method's def row; --hover --row=<call row> must name the method.",
   TRUST + " Visibility tags of class methods are not checked."),
  ("C23", "exhaustive enumeration of receivers x cursor forms against a reference suggestion set computed from the configuration JSON",
-  "An instance of every literal class, every configured class with class methods, and a user hierarchy (instance and class receivers), each as `recv.` mid-file, as last line and inside a method body: every method of the class and its ancestors incl. Object/Kernel must be suggested, nothing outside that set, and no private/unrelated/wrong-kind method of the user classes.",
+  "An instance of every literal class, every configured class with class methods, user hierarchies (instance and class receivers, namespaced, module-in-module, visibility sections around class << self), each as `recv.` mid-file, as last line and inside a method body: every method of the class and its ancestors incl. Object/Kernel must be suggested, nothing outside that set, and no private/unrelated/wrong-kind method of the user classes.",
   TRUST + " The many deviations of the unchanged tree are pinned one by one (receiver, form, missing count) in known_findings.json."),
  ("C24", "exhaustive enumeration of call-site multisets against generator-known call graphs",
-  "A target method with every multiset of 1-2 (thorough 3) call sites from 9 contexts (statement, assignment, if/elsif/unless/while condition, argument, block, loop body) x 4 enclosings (top level, top-level method, instance method, class method): --llm-nav --target must list one caller per site with row and enclosing method/class and the right total; each caller's callee list may only contain written calls, once per written call.",
+  "A target method with every multiset of 1-2 (thorough 3) call sites from 11 contexts (statement, assignment, if/elsif/unless/while condition, argument, block, loop body, two calls on one row as nested argument and as array elements) x 4 enclosings (top level, top-level method, instance method, class method): --llm-nav --target must list one caller per site with row and enclosing method/class and the right total; each caller's callee list may only contain written calls, once per written call.",
   TRUST),
  ("C25", "exhaustive enumeration of RBS signature shapes through the real converter under owned map order, then through ti",
-  "AST documents for every shape {0-2 required, 0-2 optional, rest?, 0-1 trailing, 0-2 (thorough 3) required and optional keywords} (+ overload, alias, attribute) go through rbs2json with a stand-in ruby: byte-identical JSON under SORTED/REVERSED/ROT map orders and repeated unmodified runs; prescribed argument order/flags/type mapping; ti with the emitted file reports a call with k=0..6 positionals exactly outside the RBS arity.",
+  "AST documents for every shape {0-2 required, 0-2 optional, rest?, 0-1 trailing, 0-2 (thorough 3) required and optional keywords} (+ overload, alias, attribute; and documents in which an instance and a singleton method share a name, with aliases of either kind) go through rbs2json with a stand-in ruby: byte-identical JSON under SORTED/REVERSED/ROT map orders and repeated unmodified runs; prescribed argument order/flags/type mapping; ti with the emitted file reports a call with k=0..6 positionals exactly outside the RBS arity.",
   "rbs2json and c2json are built from /repo with the same map-order overlay (order policy from $VERIF_ORDER) and also unmodified. The Ruby RBS parser is absent: generation starts at the AST JSON the embedded script would print."),
  ("C26", "exhaustive enumeration of C binding definitions through the real converter, then through ti",
-  "Every MRB_ARGS combination (REQ 0-2, OPT 0-2, REST, POST 0-1, BLOCK, NONE, ANY) via both definers, every well-formed mrb_get_args format over {i,S,o,!,|,*,&} with <=1 (thorough 2) required and optional types, and GET_*_ARG/argc patterns: converter output byte-identical under map orders and repeated runs; ti with the emitted file reports a call with k=0..6 positionals exactly outside the C definition's arity.",
+  "Every MRB_ARGS combination (REQ 0-2, OPT 0-2, REST, POST 0-1, BLOCK, NONE, ANY) via both definers, every well-formed mrb_get_args format over {i,S,o,!,|,*,&} with <=1 (thorough 2) required and optional types, GET_*_ARG/argc patterns, and one C function bound twice with different specs: converter output byte-identical under map orders and repeated runs; ti with the emitted file reports a call with k=0..6 positionals exactly outside the C definition's arity.",
   "No C compiler involved: the reference arity is the generator's reading of the spec/format/argc pattern."),
 ]
 m = {
